@@ -209,6 +209,20 @@ class MetadataGenerator:
                 return str
         return meta
 
+    def _flatten_union_members(self, types):
+        """
+        Unwrap DOptional members (yields Null instead) and unions nested in them
+        so members of Optional[Union[...]] take part in the union simplification too
+        """
+        for item in types:
+            if isinstance(item, DOptional):
+                yield Null
+                yield from self._flatten_union_members([item.type])
+            elif isinstance(item, DUnion):
+                yield from self._flatten_union_members(item.types)
+            else:
+                yield item
+
     def _optimize_union(self, t: DUnion):
         # Replace DUnion of 1 element with this element
         # if len(t) == 1:
@@ -220,10 +234,7 @@ class MetadataGenerator:
         list_types: List[DList] = []
         dict_types: List[DDict] = []
         other_types: List[MetaData] = []
-        for item in t.types:
-            if isinstance(item, DOptional):
-                item = item.type
-                other_types.append(Null)
+        for item in self._flatten_union_members(t.types):
             if isinstance(item, dict):
                 types_to_merge.append(item)
             elif item in self.str_types_registry or item is str:
